@@ -52,10 +52,18 @@ def run(rep: Report, repo: Repo):
     grammar_facts(rep, vmod, VG, vg, bmod, BG, bg)
     grammar.fresh_parser_rule(rep, 'C11.fresh', vmod, 'VerilogTransformer')
     grammar.fresh_parser_rule(rep, 'C11.fresh', bmod, 'BenchTransformer')
-    range_formula(rep, vmod, vmeth)
-    declarations(rep, vmod, vmeth)
-    ports_and_pins(rep, vmod, vmeth)
-    constants_and_names(rep, vmod, vmeth)
+    evaluated = False
+    try:
+        from checks import c11_eval
+        evaluated = c11_eval.evaluate(rep, repo, vmod)
+    except ModelError as e:
+        rep.note(f'C11.netlist: the Verilog transformer is outside the evaluated subset ({e}); the structural rules C11.range/.decl/.ports/.pins/.const/.names decide')
+    rep._c11_verilog_evaluated = evaluated
+    if not evaluated:
+        range_formula(rep, vmod, vmeth)
+        declarations(rep, vmod, vmeth)
+        ports_and_pins(rep, vmod, vmeth)
+        constants_and_names(rep, vmod, vmeth)
     bench_rules(rep, bmod, bmeth)
 
 
@@ -357,6 +365,8 @@ def undecided_changes(rep, repo):
         for q in res.get('different', []) + res.get('new', []):
             if q in res.get('absorbed_helpers', []) or q in ('parse', 'load'):
                 continue
+            if mname == 'verilog' and getattr(rep, '_c11_verilog_evaluated', False) and (q.startswith('VerilogTransformer.') or q.startswith('SignalDeclaration.') or '.' not in q):
+                continue        # decided by the evaluated rule C11.netlist (callbacks, declaration class and module-level helpers are what it evaluates)
             und.append(f'{mname}.{q}')
     if und and not rep.violations:
         raise ModelError('C11 decides only structural necessary conditions; the following function(s) differ from the confirmed reference beyond the normal form '
